@@ -70,6 +70,14 @@ func call(overrideFN *string, namespace types.EnvType, fIn types.MalType, args .
 	if minArgs < 0 || maxArgs < 0 {
 		panic(fmt.Errorf("%s: argument count bounds cannot be negative", functionFullName))
 	}
+	if contextRequired && (len(args) == 1 || len(args) == 2) {
+		// explicit bounds count lisp arguments; the context parameter (which
+		// _args_ctx discounts, as it does for signature-derived bounds) is not one of them
+		minArgs++
+		if maxArgs != unlimitedArgments {
+			maxArgs++
+		}
+	}
 
 	var extCall func(context.Context, []types.MalType) (types.MalType, error)
 	switch finType.NumOut() {
